@@ -68,7 +68,11 @@ func (g *jgen) c10Response(sp *dialect.Spec, tag string, lines *[]string, pkg st
 		pl.headers = append(pl.headers, res)
 	}
 	sort.Slice(pl.headers, func(i, j int) bool { return pl.headers[i].Name < pl.headers[j].Name })
-	switch rng.Intn(7) {
+	switch rng.Intn(8) {
+	case 7:
+		// an array body that is nullable (null and [] are different answers), written in place
+		b := &JS{Kind: "null", Inner: &JS{Kind: "arr", Inner: &JS{Kind: []string{"int", "str"}[rng.Intn(2)], Bits: 64}}}
+		pl.kind, pl.body, pl.bname = "json", b, "NArr"+tag
 	case 6:
 		// an object with arrays of arrays defined in place (and one as a component)
 		b := &JS{Kind: "obj", Members: []JM{
@@ -523,7 +527,16 @@ func runC10(c runCfg) error {
 					parts = append(parts, "I("+f[4]+")")
 				}
 				if f[5] != "-" {
-					parts = append(parts, f[5])
+					// a nullable array written in place is a plain Go slice: null is the nil slice, a value is the slice
+					b := f[5]
+					if b == "Null" {
+						b = "Nil[]"
+					} else if b == "P(Nil[])" {
+						b = "[]" // (present: the empty, non-nil slice)
+					} else if strings.HasPrefix(b, "P([") && strings.HasSuffix(b, "])") {
+						b = b[2 : len(b)-1]
+					}
+					parts = append(parts, b)
 				}
 				if f[6] != "-" {
 					parts = append(parts, f[6])
